@@ -46,7 +46,10 @@ theorem facCount_ok (a1 n b1 : List Char) (k : Nat) (c : Char) (t : List Char) (
     (hn : strictCount n = some k) (hc : isDigit c = false) :
     facCount (a1 ++ (n ++ (b1 ++ c :: t))) = some (k, b1 ++ c :: t) := by
   unfold facCount
-  rw [uint_opt a1 _ k _ oa1 (cuint32_strict n (b1 ++ c :: t) k hn (head_opt_nodigit b1 c t ob1 hc)).1]
+  obtain ⟨hu, hlt⟩ := cuint32_strict n (b1 ++ c :: t) k hn (head_opt_nodigit b1 c t ob1 hc)
+  rw [uint_opt a1 _ k _ oa1 hu]
+  simp only []
+  rw [if_neg (by omega)]
 
 theorem facBase_none (b1 : List Char) (ob1 : OptBlank b1) : facBase (b1 ++ [')']) = some (10, b1 ++ [')']) := by
   unfold facBase
